@@ -14,10 +14,14 @@ def mktree(rnd, base, with_dropins=True, broken=0.08):
     roots = [os.path.join(base, r) for r in rnd.sample(['s0', 's1', 's2'], rnd.randint(1, 3))]
     files = {}
     used = set()
-    subs = {r: [''] + rnd.sample(['sub', 'sub/deep', 'other'], rnd.randint(0, 2)) for r in roots}
+    # sub-directories of every kind of name: "recursively, in their subdirectories" has no exception for names that begin with a dot,
+    # contain blanks or look like a drop-in directory of nothing
+    subs = {r: [''] + rnd.sample(['sub', 'sub/deep', 'other', '.dot', '.dot/in', 'with blank', 'zz.d'], rnd.randint(0, 3)) for r in roots}
     for r in roots:
         if 'sub/deep' in subs[r] and 'sub' not in subs[r]:
             subs[r].append('sub')
+        if '.dot/in' in subs[r] and '.dot' not in subs[r]:
+            subs[r].append('.dot')
     names = rnd.sample(['a.container', 'b.container', 'web.container', 'tpl@.container', 'tpl@i1.container', 'tpl@i2.container', 'v.volume', 'n.network',
                         'tpl@a@b.container', 'x.y@i.container', 'tpl@i.1.container', 'vt@.volume', 'vt@x.volume'], rnd.randint(1, 5))
     for n in names:
